@@ -33,6 +33,9 @@ REQUIRED_COUNTERS = {t: ['lockstep_boards', 'lockstep_refused_plays', 'observer_
                      for t in ('quick', 'thorough')}
 
 
+# areas of the pure core whose TRANSLATION (Generated/PyCore.lean) is run next to the real code in this check
+TRANSLATED_AREAS = ('play',)
+
 def cases(ctx):
     return []
 
